@@ -202,7 +202,14 @@ func suiteC18(r *Run) {
 			checkCopy(r, ad.name, "copy", c, src, dst, snap, bytesOf)
 		case 3: // destination of a different message type
 			k2 := kinds[(rng.Intn(len(kinds)-1)+1+indexOfKind(kinds, k.name))%len(kinds)]
-			dst := k2.mk(rng)
+			var dst protov1.Message = k2.mk(rng)
+			dstRepr := "g"
+			if k2.md != nil && rng.Chance(40) {
+				// every dynamic message has the same Go type whatever its descriptor: the refusal must look at the message type
+				dst = toDynamic(k2, dst)
+				dstRepr = "d"
+			}
+			c["dst_repr"] = dstRepr
 			before := bytesOf(dst)
 			var err error
 			func() { defer recoverTo(&pan); err = ad.c.Copy(dst, src) }()
@@ -215,14 +222,18 @@ func suiteC18(r *Run) {
 			c["dst_type"] = k2.name
 			// external: do the source's wire bytes parse under the destination's schema?
 			wire := proto.Unmarshal([]byte(snap), protov1.MessageV2(k2.zero())) == nil
-			r.Op(sprintf("C18 %s copy src=%d%s dst=%dg wire=%s", ad.name, k.typ, srcRepr, k2.typ, b01(wire)), ans)
-			r.Eval(fmt.Sprint(ad.name, "mismatch", k.name, k2.name, snap), true)
+			if dstRepr == "d" {
+				wire = dynamic.NewMessage(k2.md()).Unmarshal([]byte(snap)) == nil
+			}
+			r.Op(sprintf("C18 %s copy src=%d%s dst=%d%s wire=%s", ad.name, k.typ, srcRepr, k2.typ, dstRepr, b01(wire)), ans)
+			r.Eval(fmt.Sprint(ad.name, "mismatch", k.name, k2.name, srcRepr, dstRepr, snap), true)
 			r.Count("op:mismatch")
 			if err == nil && pan == "" {
 				r.Violate("cloner/"+ad.name+"/type-mismatch-accepted", "a destination of a different message type is refused with an error rather than copied shallowly",
-					sprintf("Copy(dst *%s, src *%s) returned nil; destination now encodes as %d bytes (was %d)", k2.name, k.name, len(bytesOf(dst)), len(before)), c, "ok")
+					sprintf("Copy(dst *%s (%s), src *%s (%s)) returned nil; destination now encodes as %d bytes (was %d)", k2.name, dstRepr, k.name, srcRepr, len(bytesOf(dst)), len(before)), c, "ok")
 			} else if pan != "" {
-				r.Violate("cloner/"+ad.name+"/type-mismatch-panic", "refused with an error", trunc(pan, 100), c, "panic")
+				r.Violate("cloner/"+ad.name+"/type-mismatch-panic", "a destination of a different message type is refused with an error rather than copied shallowly",
+					sprintf("Copy(dst *%s (%s), src *%s (%s)) panicked: %s", k2.name, dstRepr, k.name, srcRepr, trunc(pan, 100)), c, "panic")
 			}
 		case 4: // pointer to something that is not a protobuf message
 			type notProto struct{ A int }
